@@ -1,6 +1,41 @@
 """C13 — adaptive limiter: generators (limit algorithms under the baton scheduler + the service under
 the poller), implementation-side monitors"""
+import os
 from gen.util import kvs, tparse, pick_outcome
+
+
+def _weak_hook():
+    """does the repository copy under test offer the weak-failure hook (`set_weak_fail_hook` in core's verif.rs)? Only then
+    can the harness make a `compare_exchange_weak` fail spuriously in an `f<tid>` turn (harness/build.rs looks at the same file)"""
+    p = os.path.join(os.environ.get("VERIF_REPO", "/repo"), "crates", "tower-resilience-core", "src", "verif.rs")
+    try:
+        with open(p) as f:
+            return "pub fn set_weak_fail_hook" in f.read()
+    except OSError:
+        return False
+
+
+_WEAK = _weak_hook()
+
+
+def _weaken(rng, sched, nt, kind):
+    """turns in which a `compare_exchange_weak` fails spuriously (`f<tid>`; Vegas's update of min_rtt is the only weak
+    compare-exchange): after a turn of a thread, one or more such turns of the same thread — a thread that has just loaded
+    min_rtt is in front of the compare-exchange —, and a few anywhere (ordinary turns unless the thread is there)"""
+    if not _WEAK or kind != "vegas":
+        return [str(x) for x in sched]
+    p = rng.choice([0.0, 0.1, 0.25, 0.5])
+    out = []
+    for x in sched:
+        if x < nt and rng.random() < 0.05:
+            out.append("f%d" % x)
+            continue
+        out.append(str(x))
+        if x < nt and rng.random() < p:
+            out += ["f%d" % x] * rng.choice([1, 1, 2, 3])
+        if rng.random() < 0.02:
+            out.append("f%d" % rng.randrange(nt + 1))
+    return out
 
 
 # ----------------------------------------------------------------------------- part A: limit algorithms
@@ -15,10 +50,12 @@ def _cfg(rng, service):
         mx = max(mx, 1)
     else:
         mn = rng.choice([0, 1, 1, 2, 3, 5])
-        mx = mn + rng.choice([0, 1, 2, 4, 8, 20])
-    initial = rng.choice([mn, mx, (mn + mx) // 2, max(0, mn - 1), mx + 2, rng.randint(mn, mx)])
-    fden = rng.choice([1, 2, 2, 4, 8])
-    fnum = rng.choice([0, fden, fden // 2, rng.randint(0, fden)])
+        mx = mn + rng.choice([0, 1, 2, 4, 8, 20, 100])
+    initial = rng.choice([mn, mx, mx, (mn + mx) // 2, max(0, mn - 1), mx + 2, rng.randint(mn, mx)])
+    # the decrease factor fnum/fden as an f64: dyadic (the product is exact) or not (0.7, 1/3, 0.58: two roundings and a
+    # truncation, which the model transcribes exactly — `TR.Limit.f64Dec`)
+    fden = rng.choice([1, 2, 2, 4, 8, 10, 10, 3, 7, 100])
+    fnum = rng.choice([0, fden, fden // 2, rng.randint(0, fden), rng.randint(0, fden)])
     alpha = rng.choice([0, 1, 1, 2, 3])
     beta = alpha + rng.choice([0, 1, 2, 3])
     thr = rng.choice([0, 1, 2, 3, 5, 9]) if not service else rng.choice([0, 1, 2, 3, 5, 10])
@@ -91,7 +128,7 @@ def gen_limit(rng, tier):
                 sched.append(sched[-1])                     # runs of one thread
             else:
                 sched.append(rng.randrange(nt))
-        ops.append("manual sched s=%s" % ",".join(str(x) for x in sched))
+        ops.append("manual sched s=%s" % ",".join(_weaken(rng, sched, nt, kind)))
     return {"header": "limit " + h, "ops": ops}
 
 
@@ -176,7 +213,7 @@ def _thread_round(rng, ops, kind):
                 sched.append(sched[-1])                     # runs of one thread
             else:
                 sched.append(rng.randrange(nt))
-    ops.append("manual sched s=%s" % ",".join(str(x) for x in sched))
+    ops.append("manual sched s=%s" % ",".join(_weaken(rng, sched, nt, kind)))
     ops.append("probe in_flight")
     if rng.random() < 0.6:
         ops.append("probe limit")
@@ -484,9 +521,14 @@ def canon_step(lines):
 
 def canon_protocol(lines):
     """what the protocol-level model claims: everything that happens before the first round of threads (sequential
-    behaviour does not depend on how the atomics are sequenced) and the verdict of the verified checker on every
-    observed value-level trace. Every round (and every warm-up) must come with its verdict: a log in which one is
-    missing makes no protocol-level claim, and the whole log is compared instead."""
+    behaviour does not depend on how the atomics are sequenced) and, for every round and warm-up, the protocol-level
+    lines: the verdict of the verified checker on the observed value-level trace (`trace-ok` / `trace-bad …`), what every
+    thread of the round reported (`trace-th <i> …`: on the model's side re-derived from the End markers the checker has
+    validated — a `limit()` / `in_flight()` value the call read, the configured bounds, an acquisition refused iff it did
+    not count itself in —, on the implementation's side what the threads returned) and the values the round left in the
+    limit cell and the in-flight counter (`trace-end …`). So a round whose step sequence no longer matches the
+    transcription is still compared on everything its threads observed. Every round (and every warm-up) must come with
+    its verdict: a log in which one is missing makes no protocol-level claim, and the whole log is compared instead."""
     out = []
     in_rounds = False
     rounds = verdicts = 0
@@ -494,7 +536,7 @@ def canon_protocol(lines):
         w = l.split()
         if len(w) > 1 and w[1] in ("step", "skip"):
             in_rounds = True
-        if " trace-" in l:
+        if len(w) > 1 and w[1] in ("trace-ok", "trace-bad"):
             verdicts += 1
         elif len(w) == 3 and w[1] == "limit":
             rounds += 1        # every `warm` and every `sched` ends with the limit it left behind
@@ -842,6 +884,9 @@ def transitions(case, lines, meta=None):
     cfg = kvs(case["header"])
     mn, mx = int(cfg.get("min", "1")), int(cfg.get("max", "100"))
     kind = cfg.get("kind", "aimd")
+    fden = int(cfg.get("fden", "2"))
+    if kind != "vegas" and fden & (fden - 1) and 0 < int(cfg.get("fnum", "1")) < fden:
+        tags.append("L:factor-nondyadic" if not _is_service(case) else "A:factor-nondyadic")
     if not _is_service(case):
         tags.append("L:kind-" + kind)
         tags.append("L:via-" + cfg.get("via", "builder"))
@@ -856,6 +901,8 @@ def transitions(case, lines, meta=None):
                 continue
             if w[0] in ("step", "skip"):
                 tags.append("L:" + w[0])
+                if len(w) > 2 and w[2] == "weak":
+                    tags.append("L:weak-turn")
                 if w[0] == "step" and prev is not None and prev != w[1]:
                     tags.append("L:switch")
                 prev = w[1] if w[0] == "step" else prev
@@ -925,6 +972,8 @@ def transitions(case, lines, meta=None):
             after_cpanic = True
         if w and w[0] in ("step", "skip"):
             tags.append("T:" + w[0])
+            if len(w) > 2 and w[2] == "weak":
+                tags.append("T:weak-turn")
             if w[0] == "step":
                 if cur_t is not None and cur_t != w[1]:
                     tags.append("T:switch")
@@ -1036,13 +1085,17 @@ ALL_TR = ["L:kind-ctl", "L:via-builder", "L:via-new", "L:via-layer", "L:op-X", "
           "A:handle-refused-after-inner-pending", "A:handle-ready-after-inner-pending",
           "A:call-panic", "A:call-panic-through-handle", "A:call-panic-while-running", "A:call-panic-in-last-slot",
           "A:admitted-after-call-panic",
-          "T:step", "T:skip", "T:switch", "T:refused", "T:two-releases-pending", "T:leftover-dropped"]
+          "T:step", "T:skip", "T:switch", "T:refused", "T:two-releases-pending", "T:leftover-dropped",
+          "L:factor-nondyadic", "A:factor-nondyadic"] + (["L:weak-turn", "T:weak-turn"] if _WEAK else [])
 
 LEVEL_NOTE = ("Trusted: Lean kernel; the transcription of aimd.rs / algorithm.rs (one model step per atomic operation, in program order) in "
               "TR.Model.Limit and of service.rs in TR.Model.Adaptive, validated only by the sampled correspondence check (the algorithms run the same "
               "schedule under the baton scheduler of the verif-hooks atomics and must agree on the step/skip trace, every limit() read and the final "
-              "limit; the service must agree line for line); relaxed atomics modelled as sequentially consistent per location; f64: dyadic AIMD "
-              "decrease factors (exact), EMA with smoothing 0.5 exact below 2^52, the Vegas queue estimate transcribed as exact binary64 "
+              "limit; the service must agree line for line); relaxed atomics modelled as sequentially consistent (per location for the bounds and "
+              "the counter; the readiness theorems of the interleaving model speak about the interleaving of the atomic steps, i.e. assume the "
+              "loads of the limit and of in_flight see the latest stores); f64: the AIMD decrease (r as f64 * factor) as usize transcribed "
+              "exactly for every factor fnum/fden and r < 2^53 (Limit.f64Dec: two roundings to nearest-even and a truncation in Nat; the theorems hold "
+              "for ANY decrease function with d r <= r), EMA with smoothing 0.5 exact below 2^52, the Vegas queue estimate transcribed as exact binary64 "
               "round-to-nearest-even arithmetic in Nat (no theorem depends on it: the bounds hold for an arbitrary estimate); usize/u64 as unbounded "
               "Nat, configurations above 2^53 outside the model; the harness (baton scheduler, virtual clock, manual poller) and python diff/monitors. "
               "poll_ready reserves nothing: what is proved about admission is the check itself, as the property states it. "
@@ -1070,7 +1123,10 @@ SPECS = {
                 "operations; 30-70 % for the controller), 1-3 rounds of 1-3 OS threads "
                 "running feedback programs (record_success with latencies 2^20..2^23 ns and a few non-dyadic ones, record_failure, limit()) under a "
                 "random schedule of atomic-operation turns (incl. turns for finished / non-existent threads), optional sequential warm-up straddling "
-                "Vegas's min_samples=10, min 0..5, max=min+0..20, initial below/inside/above the range, dyadic decrease factors 0..1. `adaptive …`: "
+                "Vegas's min_samples=10, min 0..5, max=min+0..100, initial below/inside/above the range, decrease factors fnum/fden in 0..1 with fden in "
+                "{1,2,4,8} (dyadic) and {3,7,10,100} (not: 0.7, 1/3, 0.58 …; two roundings and a truncation); for Vegas (and only if the repository copy "
+                "offers the weak-failure hook) schedules also contain `f<tid>` turns in which the compare_exchange_weak of update_rtt fails "
+                "spuriously (0 / 10 / 25 / 50 % after a turn of the same thread, in runs of 1-3, a few anywhere). `adaptive …`: "
                 "the service over the scripted inner service: arrive (clone+poll_ready+call) / poll / drop / adv / settle / ahead-of-time readiness "
                 "checks / probes in_flight, limit, ready; latencies 0..12 ms, ok/err/panic/never; callers that keep the finished call future "
                 "alive (`arrive … keep=1`, in 0 / 25 / 50 / 80 / 100 % of the calls of a case, 40 % of those cases with a fixed limit 1..3) and let "
@@ -1095,8 +1151,12 @@ SPECS = {
                 "warm-up carries the value-level trace of its atomics (`@tr=`) for the protocol-level checker. distinct = distinct implementation log; non-trivial = an interleaving in which the schedule switches between "
                 "running threads (limit) / a refusal, a cancelled running call, a panic or an ahead-of-time check (service)",
         "level_text": "Theorems TR.Props.C13.{limit_in_bounds, limit_in_bounds_final, limit_in_bounds_rounds, limit_is_last_store, vegas_choice_arbitrary, "
-                      "seq_limit_in_bounds, aimd_budget_controller_in_bounds}: for every configuration with min <= max and decrease factor <= 1, AIMD and "
-                      "Vegas, all thread programs and all schedules of atomic steps, every value ever stored in the limit cell, every register holding a "
+                      "seq_limit_in_bounds, aimd_budget_controller_in_bounds, limit_in_bounds_any_decrease, limit_in_bounds_f64_factor, "
+                      "f64_decrease_never_increases, parsed_config_covered}: for every configuration with min <= max and ANY decrease function d with "
+                      "d r <= r on the values within the bounds (Limit.DecOk: the exact floor(r*p/q), or the binary64 arithmetic of the code for every "
+                      "factor p/q <= 1 below 2^53 - f64Dec_le -, or anything else), AIMD and "
+                      "Vegas, all thread programs and all schedules of atomic steps - turns in which a compare_exchange_weak fails spuriously included "
+                      "(Limit.Turn.weak; weak_cas_failure_no_effect, weak_turn_stutters) -, every value ever stored in the limit cell, every register holding a "
                       "loaded limit and every value limit() returns lies in [min, max] (the proof ignores the rtt cells; same controller inside the retry "
                       "AIMD budget). {in_flight_exact, in_flight_matches_log, quiescent_zero, ready_iff_capacity, admitted_below_limit, refused_at_limit, "
                       "every_check_exact, checked_had_capacity, service_limit_in_bounds}: in every reachable state of the service, for all arrival / "
@@ -1113,6 +1173,14 @@ SPECS = {
                       "threads_in_flight_exact_within_history, threads_in_flight_matches_log, threads_limit_in_bounds}: clones on any number of threads, "
                       "all programs, all schedules of the atomic steps (fetch_add at admission, fetch_sub at release): in_flight = number of live guards in "
                       "every reachable state, 0 once no thread holds a call. "
+                      "Readiness under interleaving {threads_check_exact_at_its_turn, threads_limit_loaded_at_its_turn, threads_every_check_exact, "
+                      "threads_admitted_on_a_passed_check, threads_overshoot_bounded, threads_release_never_underflows, release_never_underflows, "
+                      "threads_own_guards_le_counter}: poll_ready's two loads and call's fetch_add are three atomic steps, so a caller may be admitted on a "
+                      "stale check; what holds for every program and schedule: at the turn of its in_flight load a thread is refused iff the calls really "
+                      "in flight at that turn have reached the limit it loaded (the cell's value at the turn it loaded it); every comparison ever made was "
+                      "answered by what it saw, against a limit within the bounds that the cell had held; every call in flight (and every thread about to "
+                      "count itself in) passed a check that saw fewer calls than its limit; the counter never exceeds max_limit + T - 1 with T threads "
+                      "(tight: kernel-checked example with 2 calls in flight at fixed limit 1). "
                       "{call_panic_frees_slot, call_panic_counted_then_released}: a call whose inner Service::call panics synchronously (no future is "
                       "ever returned) is counted while inner.call runs and released by the unwind: counter, running calls, readiness answer, algorithm, "
                       "mirror and serial numbers are what they were before the arrival; TR.Mutants.AdaptiveGuardAfterCall (guard built after inner.call) "
@@ -1124,21 +1192,28 @@ SPECS = {
                       "TR.Mutants.AdaptiveSlotAtDrop (same file): the guard owned by the future object (slot given back at drop, not at completion) "
                       "with its witness (limit 1, one kept completed call => in_flight = 1, nothing running, readiness refused). "
                       "Protocol level {trace_limit_in_bounds, trace_limit_in_bounds_prefix, trace_rounds_in_bounds, vegas_three_results, "
-                      "trace_in_flight_exact, trace_in_flight_prefix}: for EVERY value-level trace of the atomics that the verified checker "
+                      "trace_in_flight_exact, trace_in_flight_prefix, trace_results_justified, trace_readiness_decisions}: for EVERY value-level trace of the atomics that the verified checker "
                       "TR.Limit.checkTrace accepts (values chain; every write to the limit cell is made inside a feedback operation and stores "
                       "aimdSuccNew / aimdFailNew / aimdSuccsNew n / vegasFailNew / one of the three results of vegasNew / the clamped initial value of a value "
                       "the same operation read from the cell earlier; every write to the in-flight counter is one read-modify-write, +1 inside an admitted "
                       "poll_ready+call, -1 from a value >= 1 inside an operation ending a held call) - any number of threads and operations, any "
                       "interleaving, however the implementation sequences its atomics: every value the limit cell ever holds and every value limit() "
                       "returns is in [min, max] (also across the rounds of a case, from the constructor's clamped initial value on), and the counter is the "
-                      "initial value + admitted - ended calls at quiescence (up to the operations in progress at every point). "
+                      "initial value + admitted - ended calls at quiescence (up to the operations in progress at every point); every poll_ready+call that "
+                      "counted itself in had read, before that, a limit (within the bounds) from the limit cell and a smaller count from the counter, "
+                      "every refused one a count that had reached a limit it had read (Limit.checkTraceD / dstep: one justified decision per returned "
+                      "acquisition - the readiness clauses as they can be judged under interleaving, on the real code's traces); the End markers carry every "
+                      "result a call reports and the checker validates them (limit() / in_flight() a value the call read, min_limit() / max_limit() the "
+                      "configured bounds). "
                       "Services {services_share_algorithm, services_independent, new_service_starts_empty, services_in_flight_exact}: any number of "
                       "services built from one layer value (or clones of it) share the algorithm and nothing else; a step on one leaves the others' "
                       "counters, callers and handles untouched; every service's counter equals the number of ITS running calls after any history.",
         "level_note": LEVEL_NOTE,
         "trusted": ["transcription of AimdController / Aimd / Vegas at atomic-operation granularity in TR.Model.Limit and of AdaptiveService in "
                     "TR.Model.Adaptive (sampled by the correspondence check: same schedule, same step/skip trace, same reads, same final limit)",
-                    "verif-hooks atomics: one yield point per atomic operation, compare_exchange_weak strong under the hook; service.rs takes "
+                    "verif-hooks atomics: one yield point per atomic operation; compare_exchange_weak is the strong form under the hook unless the "
+                    "weak-failure hook (set_weak_fail_hook, notes/hooks-weak-cas.diff) tells it to fail spuriously in that turn - then it returns "
+                    "Err(current value) without exchanging; harness/build.rs detects whether the repository copy has the hook; service.rs takes "
                     "its AtomicUsize (in_flight, current_limit) through the same cfg-gated alias (notes/hooks-adaptive-service.diff)",
                     "relaxed atomics as sequentially consistent per location",
                     "f64: dyadic decrease factors and power-of-two latencies make the arithmetic exact; Vegas queue estimate = exact binary64 "
@@ -1146,9 +1221,12 @@ SPECS = {
                     "harness: baton scheduler, clock_gettime interposition, manual poller; python diff/monitors",
                     "protocol level: the observer hook reports each hooked operation's value before / after (store observed through swap); the begin / end "
                     "markers of the API calls and the identification of the limit / in-flight cell (the one cell limit() / in_flight() loads) are the "
-                    "harness's; a case on which only the protocol-level model agrees counts as agreeing (evidence: agree_at_protocol_level_only)",
+                    "harness's; a case on which only the protocol-level model agrees counts as agreeing (evidence: agree_at_protocol_level_only) - it is then "
+                    "compared on everything before its first round of threads and, per round / warm-up, on the verdict, on what every thread reported "
+                    "(trace-th: re-derived by the model from the End markers the checker validated) and on the limit / in-flight count the round left (trace-end)",
                     "the no-atomic entry points (record_dropped, min_limit, max_limit) take one turn each at an explicit yield point of the harness"],
-        "assumptions": ["min_limit <= max_limit and decrease_factor in [0,1] (the property's quantifier; Rust's clamp panics for min > max)",
+        "assumptions": ["min_limit <= max_limit and decrease_factor in [0,1] (the property's quantifier; Rust's clamp panics for min > max); of the decrease "
+                        "only d r <= r is used (proved for the code's f64 arithmetic below 2^53)",
                         "usize/u64 modelled as unbounded Nat; values below 2^53",
                         "one poll of one call future is atomic for the single-threaded callers; in the rounds of threads the yield points are the "
                         "hooked atomic operations and the operation boundaries (thread-local code between two of them is atomic)",
